@@ -10,12 +10,12 @@ CONSTANTS
   AllowNoSync = TRUE
   FixOOB = TRUE
   FixFirstRb = TRUE
-  AllowCrash = FALSE
+  AllowCrash = TRUE
   FixJournalNoPS = TRUE
   FixModeOnOpen = TRUE
   AllowRetain = FALSE
   Emit = "idle"
 VIEW view
-INVARIANTS NoFault C04_Checksum C02_Image C02_Delta C02_Outcome C09_Chain CacheSound EmitInv
+INVARIANTS NoFault C05_Recover C05_ModeAfterRestart C04_Checksum C02_Image C02_Delta C02_Outcome C09_Chain CacheSound EmitInv
 PROPERTIES C02_AtMostOne
 CHECK_DEADLOCK FALSE
